@@ -117,6 +117,10 @@ func c03VerbatimBodies() []string {
 		}
 	}
 	res = append(res, "{% if x %}{{ x }}{% endif %}", "a{# c #}b{{ x }}c", "")
+	// look-alikes of the closing tag and closing tags of other constructs: only "{% endverbatim %}" ends the section
+	res = append(res, "{% endraw %}", "{% raw %}x{% endraw %}", "{% endverbatim", "{% end verbatim %}", "{% endverbatimx %}", "{% xendverbatim %}", "{% ENDVERBATIM %}",
+		"{# endverbatim #}", "{{ endverbatim }}", "{% endblock %}", "{% endcomment %}", "{% endautoescape %}", "{% verbatim %}", "endverbatim", "{ % endverbatim %}",
+		"{% endverbatim % }", "{% endverbatim() %}", "{% end %}", "{% endfor %}{% endset %}{% endmacro %}{% endfilter %}{% endembed %}", "{% endverbatim\x00%}", "{%endraw%}b")
 	return res
 }
 
